@@ -60,6 +60,8 @@ def cases(tier, seed):
 
 
 _mon = None
+_JIT_OPS = None
+_JIT_ID = None
 
 
 def setup(ctx):
@@ -156,7 +158,10 @@ def build(rng, geom, jax, jnp, blocks, D, torus, n_lead):
         elif tr == "from_vector":
             mi = geom.MultiImage.from_vector(mi.to_vector(), mi)
         elif tr == "jit":
-            mi = jax.jit(lambda m: m)(mi)
+            global _JIT_ID
+            if _JIT_ID is None:
+                _JIT_ID = jax.jit(lambda m: m)  # one identity reused for every operand of this process
+            mi = _JIT_ID(mi)
             round_trip = True
         elif tr == "flatten":
             leaves, treedef = jax.tree_util.tree_flatten(mi)
@@ -222,8 +227,24 @@ def run(case, ctx):
                 viols.append(viol(f"arith-exception-{type(e).__name__}", f"{name} raised {type(e).__name__}: {str(e)[:200]}; orders {orders}; histories {ha} / {hb}"))
         # the same operations traced under jit (keys sorted by jax inside the trace): results by type must agree
         try:
-            js = jax.jit(lambda u, v: (u + v, u - v, u * 3.0, v / 2.0))(a, b)
-            evals += 1
+            # ONE jitted callable reused for all operands of this process (the jit cache is keyed by the pytree structure:
+            # operands with the same types in another storage order must not be served a stale trace), called for (a,b)
+            # and for the same content rebuilt in reversed insertion order
+            global _JIT_OPS
+            if _JIT_OPS is None:
+                _JIT_OPS = jax.jit(lambda u, v: (u + v, u - v, u * 3.0, v / 2.0))
+            ar = geom.MultiImage({t: jnp.asarray(blocks_a[t]) for t in list(a.keys())[::-1]}, D, torus)
+            br = geom.MultiImage({t: jnp.asarray(blocks_b[t]) for t in list(b.keys())[::-1]}, D, torus)
+            for u_, v_ in ((a, b), (ar, br), (a, br)):
+                js = _JIT_OPS(u_, v_)
+                evals += 1
+                for nm, got, want in zip(("add", "sub", "mul", "div"), js, [
+                    {t: blocks_a[t] + blocks_b[t] for t in blocks_a}, {t: blocks_a[t] - blocks_b[t] for t in blocks_a},
+                    {t: blocks_a[t] * 3.0 for t in blocks_a}, {t: blocks_b[t] / 2.0 for t in blocks_a}]):
+                    if set(got.keys()) != set(want) or any(np.asarray(got[t]).shape != want[t].shape or not np.allclose(np.asarray(got[t]), want[t], rtol=1e-6) for t in want):
+                        viols.append(viol("arith-under-reused-jit", f"a reused jitted {nm} differs from the per-type result for operand orders {list(u_.keys())} / {list(v_.keys())} (jit cache keyed by pytree structure)"))
+                        break
+            js = _JIT_OPS(a, b)
             wants = [
                 {t: blocks_a[t] + blocks_b[t] for t in blocks_a}, {t: blocks_a[t] - blocks_b[t] for t in blocks_a},
                 {t: blocks_a[t] * 3.0 for t in blocks_a}, {t: blocks_b[t] / 2.0 for t in blocks_a},
